@@ -327,3 +327,7 @@ META = {
     'technique': 'static analysis: path enumeration over abstract ranks, comparison-predicate enumeration of radius/UMI tests, component-set checks of match hashes, imported symbolic site analysis',
     'design_ref': 'DESIGN.md section 5, C06',
 }
+
+
+from . import shared as _shared
+_shared.register('C06', 'C06')
